@@ -34,6 +34,13 @@ def load_findings(pid):
     return found
 
 
+def case_hash(case):
+    """identity of a behaviour: everything that determines the run (the family label does not)"""
+    import hashlib
+    d = {k: v for k, v in case.items() if k != "family" and not k.startswith("_")}
+    return hashlib.sha1(json.dumps(d, sort_keys=True, default=str).encode()).hexdigest()[:14]
+
+
 def _matches(finding, sig):
     """A finding matches a violation signature when every key of finding['match'] agrees with it.
     A list value in the finding means 'one of'; tags (key 'tags_any') must intersect."""
@@ -96,11 +103,31 @@ class Ctx:
         return res
 
     # ---- verdicts ---------------------------------------------------------------------------
+    def _baseline(self):
+        """Exact failing histories of the unchanged tree (tools/mkbaseline.py): the hazard-stratum findings derived from
+        measurements (`auto`) only cover a behaviour that was actually measured failing - another history of the same stratum
+        that starts to fail is a violation.  Only exhaustive, seed-independent families reach hazard strata (13.4)."""
+        if not hasattr(self, "_bl"):
+            self._bl = None
+            p = os.path.join(VERIF, "baseline", "%s.json" % self.pid)
+            if os.path.exists(p) and not os.environ.get("VERIF_NO_BASELINE"):
+                with open(p) as fh:
+                    d = json.load(fh)
+                if d.get("exact") and self.tier in d.get("tiers", {}):      # only for a tier that was measured itself
+                    self._bl = {cl: set(hs) for cl, hs in d["hashes"].items()}
+        return self._bl
+
     def report(self, sig, detail, replay=None):
         """Report a property-predicate failure observed on the real code. `sig` is a dict with at least
         'clause'; it is attributed to a listed finding when one matches, else it is a violation."""
+        hh = case_hash(replay) if isinstance(replay, dict) else None
+        if hh is not None and os.environ.get("VERIF_BASELINE_OUT"):
+            self.__dict__.setdefault("_failed", set()).add((sig.get("clause"), hh))
         for f in self.findings:
             if f.get("status", "open") == "open" and _matches(f, sig):
+                if f.get("auto") and hh is not None and self._baseline() is not None \
+                        and hh not in self._baseline().get(sig.get("clause"), ()):
+                    continue                      # same stratum, but not a behaviour that was measured failing
                 h = self.known_hits.setdefault(f["id"], [0, detail, f])
                 h[0] += 1
                 return f["id"]
@@ -136,6 +163,9 @@ class Ctx:
 
     # ---- output -----------------------------------------------------------------------------
     def finish(self):
+        if os.environ.get("VERIF_BASELINE_OUT"):
+            with open(os.environ["VERIF_BASELINE_OUT"], "w") as fh:
+                json.dump(sorted(self.__dict__.get("_failed", set())), fh)
         os.makedirs(EVIDENCE_DIR, exist_ok=True)
         lines = []
         for fid, (n, detail, f) in sorted(self.known_hits.items()):
